@@ -12,7 +12,7 @@
    between the two are phrased through the class COMPUTED from the tables. *)
 From Coq Require Import List Bool NArith ZArith.
 From Coq Require Import String.
-From XV Require Import Base.Amap Config.Types Config.Model Config.Proofs Config.Priority.
+From XV Require Import Base.Amap Config.Types Config.Model Config.Proofs Config.Priority Config.CliSplit.
 From XV Require Gen.ConfigOrder Gen.CliSwitches Gen.CachePrefix Gen.DefaultKeys.
 Import ListNotations.
 Open Scope N_scope.
@@ -197,6 +197,47 @@ Theorem lookalike_class_exact (s : str) : lookalike s = true -> forall x, parse_
 Proof. exact (parse_lookalike s). Qed.
 
 (* ================================================================================================ *)
+(* 4b. A `-c key=value` option gives the key the WHOLE text after the first '=' (a value may contain
+   '=' itself: a URL with a query, a shell command).  XvcConfig::parse_key_value_vector; which of the
+   two splittings the code has is the regenerated constant Gen.CliSwitches.cli_split_once.
+   has_eq s = true iff s contains '=' (byte 61).                                                    *)
+Definition C20_cli_value_whole : Prop :=
+  forall k v : str, has_eq k = false -> parse_kv (k ++ 61 :: v) = Some (trim k, parse_to_value (trim v)).
+
+Theorem cli_value_whole : Gen.CliSwitches.cli_split_once = true -> C20_cli_value_whole.
+Proof. exact (fun H k v Hk => eq_trans (parse_kv_current_once H _) (parse_kv_once_whole k v Hk)). Qed.
+
+(* split('='): the value ends at the second '=' -- the defect `cli-value-after-second-equals-dropped` *)
+Theorem cli_value_truncated_refuted : Gen.CliSwitches.cli_split_once = false -> ~ C20_cli_value_whole.
+Proof.
+  intros H F. specialize (F (s2l "k") (s2l "a=b") eq_refl).
+  rewrite (parse_kv_current_all H) in F. vm_compute in F. discriminate.
+Qed.
+
+(* whichever splitting the code has: an option whose value has no '=' is read as documented, and the
+   class of options on which the two differ is exactly "the value contains '='" *)
+Theorem cli_value_whole_outside_class (k v : str) :
+  has_eq k = false -> has_eq v = false -> parse_kv (k ++ 61 :: v) = Some (trim k, parse_to_value (trim v)).
+Proof.
+  exact (fun Hk Hv =>
+    match Gen.CliSwitches.cli_split_once as b
+      return parse_kv_with b (k ++ 61 :: v) = Some (trim k, parse_to_value (trim v)) with
+    | true => parse_kv_once_whole k v Hk
+    | false => eq_trans (parse_kv_agree_single k v Hk Hv) (parse_kv_once_whole k v Hk)
+    end).
+Qed.
+
+(* an option without '=' is the only one that makes XvcConfig::new panic (index out of bounds) *)
+Theorem cli_option_panics_iff_no_equals (s : str) : parse_kv s = None <-> has_eq s = false.
+Proof. exact (parse_kv_panics_iff s). Qed.
+
+Example cli_value_whole_witness :
+  parse_kv_once (s2l "core.x = a=b=c ") = Some (s2l "core.x", VStr (s2l "a=b=c")) /\
+  parse_kv_all (s2l "core.x = a=b=c ") = Some (s2l "core.x", VStr (s2l "a")) /\
+  has_eq (s2l "core.x ") = false /\ parse_kv (s2l "verbosity") = None.
+Proof. vm_compute. repeat split; reflexivity. Qed.
+
+(* ================================================================================================ *)
 (* 5. Commands act on the effective value: the first component of the cache path `track` uses is the
       directory prefix of the algorithm named by the EFFECTIVE cache.algorithm.  (M-CONF half of
       DESIGN 5.2 theorem 5; that the cache path starts with XvcDigest::directory_prefix and that
@@ -355,6 +396,10 @@ Print Assumptions getters_by_type.
 Print Assumptions lookalike_refuted.
 Print Assumptions strings_kept_outside_lookalikes.
 Print Assumptions lookalike_class_exact.
+Print Assumptions cli_value_whole.
+Print Assumptions cli_value_truncated_refuted.
+Print Assumptions cli_value_whole_outside_class.
+Print Assumptions cli_option_panics_iff_no_equals.
 Print Assumptions track_uses_effective_algorithm.
 Print Assumptions track_fails_on_mistyped_algorithm.
 Print Assumptions tables_wellformed.
